@@ -109,6 +109,7 @@ type c05LocalSpec struct {
 	Chunks []GenChunk `json:"chunks"`
 	Exit   int        `json:"exit"`
 	Cancel bool       `json:"cancel"` // cancel the unit at a gate: the stream must still end
+	Big    bool       `json:"big,omitempty"`
 	Seed   int64      `json:"seed"`
 }
 
@@ -119,6 +120,12 @@ func genC05Local(rng *rand.Rand, idx int) *c05LocalSpec {
 	k := 2 + rng.Intn(4)
 	for i := 0; i < k; i++ {
 		sp.Chunks = append(sp.Chunks, GenChunk{N: c05Sizes[rng.Intn(len(c05Sizes))], PauseMs: []int{0, 0, 30, 260, 600}[rng.Intn(5)]})
+	}
+	if idx == 0 {
+		// one unit per run produces more than a million bytes, and JSON-form requests ask for offsets around and
+		// beyond 1,000,000 (numbers of that size travel through JSON as floats)
+		sp.Chunks = []GenChunk{{N: 700000}, {N: 450000, PauseMs: 30}, {N: 150000}}
+		sp.Big = true
 	}
 	switch idx % 6 {
 	case 1:
@@ -192,6 +199,14 @@ func c05Local(run *ev.Run, d *ctl.Daemon, dir string, sp *c05LocalSpec) {
 				form = "json"
 			}
 			readers = append(readers, c05StartReader(d, id, p, form, moment, spec.Seed))
+		}
+		if sp.Big && (moment == "after-completion" || written >= 1000000) {
+			for _, p := range []int64{999999, 1000000, 1000001, 1234567} {
+				if p <= written {
+					readers = append(readers, c05StartReader(d, id, p, "json", moment, spec.Seed))
+					run.Count("json_requests_at_offsets_of_a_million_or_more", 1)
+				}
+			}
 		}
 	}
 	var written int64
